@@ -105,7 +105,7 @@ structure Shape (Sy : Syms) (t : RTok) : Prop where
   bal : Bal (render t)
   obal : OBal (renderT t)
   close : ∃ k, render t = renderT t ++ List.replicate k ')'
-  lastT : ∃ c, (renderT t).getLast? = some c ∧ notParen c
+  lastT : ∃ c, (renderT t).getLast? = some c ∧ notParen c ∧ c ≠ ' '
   nonl : '\n' ∉ render t
   atomSp : isFunc t = false → ' ' ∉ render t ∧ ' ' ∉ renderT t ∧ ∃ c r, render t = c :: r ∧ c ≠ '(' ∧ ∃ r', renderT t = c :: r'
   depth : fdepth t ≤ (render t).length
@@ -114,7 +114,7 @@ structure ShapeArgs (Sy : Syms) (args : List RTok) : Prop where
   bal : Bal (renderArgs args)
   obal : OBal (renderArgsT args)
   close : ∃ k, renderArgs args = renderArgsT args ++ List.replicate k ')'
-  lastT : args ≠ [] → ∃ c, (renderArgsT args).getLast? = some c ∧ notParen c
+  lastT : args ≠ [] → ∃ c, (renderArgsT args).getLast? = some c ∧ notParen c ∧ c ≠ ' '
   nonl : '\n' ∉ renderArgs args
   depth : fdepths args ≤ (renderArgs args).length
 
@@ -129,10 +129,10 @@ theorem plain_bal (s : Str) (h : ∀ c ∈ s, notParen c ∧ c ≠ ' ' ∧ c ≠
 
 theorem shape_plain (Sy : Syms) (t : RTok) (hT : renderT t = render t)
     (hp : ∀ c ∈ render t, notParen c ∧ c ≠ ' ' ∧ c ≠ '\n') (hne : render t ≠ []) (hf : fdepth t = 0) : Shape Sy t := by
-  have hlast : ∃ c, (render t).getLast? = some c ∧ notParen c := by
+  have hlast : ∃ c, (render t).getLast? = some c ∧ notParen c ∧ c ≠ ' ' := by
     cases hl : (render t).getLast? with
     | none => simp at hl; exact absurd hl hne
-    | some c => exact ⟨c, rfl, (hp c (List.mem_of_getLast? hl)).1⟩
+    | some c => exact ⟨c, rfl, (hp c (List.mem_of_getLast? hl)).1, (hp c (List.mem_of_getLast? hl)).2.1⟩
   refine ⟨plain_bal _ hp, by rw [hT]; exact .bal _ (plain_bal _ hp), ⟨0, by simp [hT]⟩, by rw [hT]; exact hlast,
     fun hm => (hp _ hm).2.2 rfl, ?_, by omega⟩
   intro _
@@ -188,13 +188,13 @@ mutual
         · exact (hnp c e).2
         · subst e; exact ⟨by decide, by decide⟩
         · exact (htail c (by simpa using e)).2
-      have hlast : ∃ c, (render (.cnt most ns ds)).getLast? = some c ∧ notParen c := by
+      have hlast : ∃ c, (render (.cnt most ns ds)).getLast? = some c ∧ notParen c ∧ c ≠ ' ' := by
         have hne : ds ≠ [] := by
           intro e; subst e; simp [digitsOK] at hd
         cases hl : ds.getLast? with
         | none => simp at hl; exact absurd hl hne
         | some c =>
-          refine ⟨c, ?_, (digits_notParen hd c (List.mem_of_getLast? hl)).1⟩
+          refine ⟨c, ?_, (digits_notParen hd c (List.mem_of_getLast? hl)).1, (digits_notParen hd c (List.mem_of_getLast? hl)).2.1⟩
           cases ds with
           | nil => exact absurd rfl hne
           | cons x xs =>
@@ -243,7 +243,7 @@ mutual
         cases hl : (joinNames ns).getLast? with
         | none => simp at hl; exact absurd hl hne
         | some c =>
-          refine ⟨c, ?_, (hnp c (List.mem_of_getLast? hl)).1⟩
+          refine ⟨c, ?_, (hnp c (List.mem_of_getLast? hl)).1, (hnp c (List.mem_of_getLast? hl)).2.1⟩
           rw [e2]
           cases hj : joinNames ns with
           | nil => exact absurd hj hne
@@ -272,7 +272,7 @@ mutual
           cases hl : (renderSet hset).getLast? with
           | none => simp at hl; exact absurd hl hne
           | some c =>
-            refine ⟨c, ?_, (hsp c (List.mem_of_getLast? hl)).1⟩
+            refine ⟨c, ?_, (hsp c (List.mem_of_getLast? hl)).1, (hsp c (List.mem_of_getLast? hl)).2.1⟩
             cases hr : renderSet hset with
             | nil => exact absurd hr hne
             | cons x xs =>
@@ -349,6 +349,7 @@ def parseRest (Sy : Syms) (rec : Str → Option (Tok Sym)) : Nat → Str → Opt
   | 0, _ => none
   | steps + 1, rem =>
     if rem = [] then some [] else
+    if Sy.fixF5 && (parseNextWord rem).1.isEmpty then parseRest Sy rec steps (rem.drop (parseNextWord rem).2) else
     match tokOf Sy rec (parseNextWord rem).1 with
     | none => none
     | some t =>
@@ -367,6 +368,8 @@ theorem parseWords_eq (Sy : Syms) (rec : Str → Option (Tok Sym)) (steps : Nat)
         intro e; rw [List.drop_eq_nil_iff] at e; omega
       simp only [h, if_true, hne, if_false, tokOf]
       rw [ih (spec.drop idx) (parseNextWord (spec.drop idx)).2]
+      split
+      · rfl
       cases (if startsWith ['('] (parseNextWord (spec.drop idx)).1 = true then rec (parseNextWord (spec.drop idx)).1
         else interpretWord Sy (parseNextWord (spec.drop idx)).1) <;> rfl
     · have he : spec.drop idx = [] := List.drop_eq_nil_iff.mpr (by omega)
@@ -483,6 +486,17 @@ theorem render_ne_nil (Sy : Syms) (a : RTok) (hok : renderOK Sy a = true) : rend
 theorem parseRest_nil (Sy : Syms) (rec : Str → Option (Tok Sym)) (n : Nat) : parseRest Sy rec (n + 1) [] = some [] := by
   simp [parseRest]
 
+theorem parseRest_step (Sy : Syms) (rec : Str → Option (Tok Sym)) (n : Nat) (rem w : Str) (k : Nat)
+    (hrem : rem ≠ []) (hp : parseNextWord rem = (w, k)) (hw : w ≠ []) :
+    parseRest Sy rec (n + 1) rem = (match tokOf Sy rec w with
+      | none => none
+      | some t => match parseRest Sy rec n (rem.drop k) with
+        | none => none
+        | some ts => some (t :: ts)) := by
+  rw [parseRest]
+  have : w.isEmpty = false := by cases w <;> simp at hw ⊢
+  simp only [hrem, if_false, hp, this, Bool.and_false, Bool.false_eq_true]
+
 theorem parseRest_args (Sy : Syms) (rec : Str → Option (Tok Sym)) : ∀ (args : List RTok), args ≠ [] →
     renderOKs Sy args = true →
     (∀ a ∈ args, isFunc a = true → rec (render a) = sem Sy a ∧ rec (renderT a) = sem Sy a) →
@@ -492,8 +506,8 @@ theorem parseRest_args (Sy : Syms) (rec : Str → Option (Tok Sym)) : ∀ (args 
     simp only [renderOKs, Bool.and_eq_true, and_true] at hok
     obtain ⟨n, rfl⟩ : ∃ n, steps = n + 2 := ⟨steps - 2, by simp at hs; omega⟩
     have hne := renderT_ne_nil Sy a hok
-    rw [parseRest]
-    simp only [wordsT, hne, if_false, (pnw_tok Sy a hok).2]
+    simp only [wordsT]
+    rw [parseRest_step Sy rec _ _ _ _ hne (pnw_tok Sy a hok).2 hne]
     rw [(tokOf_tok Sy rec a hok (hrec a List.mem_cons_self)).2]
     rw [List.drop_of_length_le (by omega), parseRest_nil]
     simp only [semArgs]
@@ -503,8 +517,8 @@ theorem parseRest_args (Sy : Syms) (rec : Str → Option (Tok Sym)) : ∀ (args 
     obtain ⟨n, rfl⟩ : ∃ n, steps = n + 1 := ⟨steps - 1, by simp at hs; omega⟩
     have hne : render a ++ ' ' :: wordsT (b :: as) ≠ [] := by simp
     conv => rhs; rw [semArgs]
-    rw [parseRest]
-    simp only [wordsT, hne, if_false, (pnw_tok Sy a hok.1).1]
+    simp only [wordsT]
+    rw [parseRest_step Sy rec _ _ _ _ hne ((pnw_tok Sy a hok.1).1 _) (render_ne_nil Sy a hok.1)]
     rw [(tokOf_tok Sy rec a hok.1 (hrec a List.mem_cons_self)).1]
     rw [show (render a).length + 1 = (render a ++ [' ']).length by simp,
       show render a ++ ' ' :: wordsT (b :: as) = (render a ++ [' ']) ++ wordsT (b :: as) by simp, List.drop_left]
@@ -547,12 +561,10 @@ theorem renderOK_of_mem (Sy : Syms) {a : RTok} {args : List RTok} (hok : renderO
 
 /-! ### the recursion -/
 
-def isParen (c : Char) : Bool := c = ')' || c = '('
-
 /-- both renderings of a function pattern are stripped to head and argument words -/
-theorem strip_func (Sy : Syms) (h : RSet) (args : List RTok) (hok : renderOK Sy (.func h args) = true) :
-    stripChars isParen (removeChar '\n' (render (.func h args))) = renderSet h ++ renderArgsT args ∧
-    stripChars isParen (removeChar '\n' (renderT (.func h args))) = renderSet h ++ renderArgsT args := by
+theorem strip_func (Sy : Syms) (b : Bool) (h : RSet) (args : List RTok) (hok : renderOK Sy (.func h args) = true) :
+    stripChars (stripP b) (removeChar '\n' (render (.func h args))) = renderSet h ++ renderArgsT args ∧
+    stripChars (stripP b) (removeChar '\n' (renderT (.func h args))) = renderSet h ++ renderArgsT args := by
   have sh := shape Sy _ hok
   obtain ⟨hs, _, _, _⟩ := func_inner Sy h args hok
   obtain ⟨k, hk⟩ := sh.close
@@ -563,14 +575,14 @@ theorem strip_func (Sy : Syms) (h : RSet) (args : List RTok) (hok : renderOK Sy 
   -- the core: not empty, begins and ends with a character that is not a bracket
   obtain ⟨c0, r0, hr0, hc0⟩ := renderSet_head hs
   have hYne : renderSet h ++ renderArgsT args ≠ [] := by rw [hr0]; simp
-  have hhead : ∀ c, (renderSet h ++ renderArgsT args).head? = some c → isParen c = false := by
+  have hhead : ∀ c, (renderSet h ++ renderArgsT args).head? = some c → stripP b c = false := by
     intro c hc
     rw [hr0] at hc
     simp only [List.cons_append, List.head?_cons, Option.some.injEq] at hc
     subst hc
-    have := (renderSet_chars hs c0 (by rw [hr0]; exact List.mem_cons_self)).1
-    simp [isParen, this.1, this.2]
-  have hlast : ∀ c, (renderSet h ++ renderArgsT args).getLast? = some c → isParen c = false := by
+    have := renderSet_chars hs c0 (by rw [hr0]; exact List.mem_cons_self)
+    simp [stripP, this.1.1, this.1.2, this.2.1]
+  have hlast : ∀ c, (renderSet h ++ renderArgsT args).getLast? = some c → stripP b c = false := by
     intro c hc
     obtain ⟨d, hd, hn⟩ := sh.lastT
     simp only [renderT] at hd
@@ -581,20 +593,18 @@ theorem strip_func (Sy : Syms) (h : RSet) (args : List RTok) (hok : renderOK Sy 
       rw [show ('(' :: y :: ys) = ['('] ++ y :: ys by rfl, getLast?_append_cons, hc] at hd
       simp only [Option.some.injEq] at hd
       subst hd
-      simp [isParen, hn.1, hn.2]
-  have hpost : ∀ n, ∀ c ∈ List.replicate n ')', isParen c = true := by
+      simp [stripP, hn.1.1, hn.1.2, hn.2]
+  have hpost : ∀ n, ∀ c ∈ List.replicate n ')', stripP b c = true := by
     intro n c hc
     rw [List.mem_replicate] at hc
-    rw [hc.2]; decide
+    rw [hc.2]; simp [stripP]
   constructor
   · rw [hk]
     simp only [renderT]
-    exact stripChars_mid isParen ['('] _ _ (by decide) (hpost k) hYne hhead hlast
+    exact stripChars_mid (stripP b) ['('] _ _ (by simp [stripP]) (hpost k) hYne hhead hlast
   · simp only [renderT]
-    have := stripChars_mid isParen ['('] (renderSet h ++ renderArgsT args) [] (by decide) (by simp) hYne hhead hlast
+    have := stripChars_mid (stripP b) ['('] (renderSet h ++ renderArgsT args) [] (by simp [stripP]) (by simp) hYne hhead hlast
     simpa using this
-
-theorem isParen_eq : (fun c => decide (c = ')') || decide (c = '(')) = isParen := rfl
 
 /-- the head word of a pattern -/
 theorem tokOf_head (Sy : Syms) (rec : Str → Option (Tok Sym)) (h : RSet) (hs : setOK h = true) :
@@ -625,18 +635,18 @@ theorem parseSpec_func (Sy : Syms) : ∀ (fuel : Nat) (t : RTok), renderOK Sy t 
     cases t with
     | func h args =>
       obtain ⟨hs, hoks, _, _⟩ := func_inner Sy h args hok
-      obtain ⟨e1, e2⟩ := strip_func Sy h args hok
+      obtain ⟨e1, e2⟩ := strip_func Sy Sy.fixF5 h args hok
       -- the loop on the stripped string
       have key : parseWords Sy (parseSpec Sy fuel) ((renderSet h ++ renderArgsT args).length + 1)
           (renderSet h ++ renderArgsT args) 0 =
           (match tokOf Sy (parseSpec Sy fuel) (renderSet h), semArgs Sy args with
             | some t, some ts => some (t :: ts)
             | _, _ => none) := by
-        rw [parseWords_eq, List.drop_zero, parseRest]
+        rw [parseWords_eq, List.drop_zero]
         obtain ⟨c0, r0, hr0, hc0⟩ := renderSet_head hs
         have hsp : ' ' ∉ renderSet h := fun hm => (renderSet_chars hs _ hm).2.1 rfl
         have hYne : renderSet h ++ renderArgsT args ≠ [] := by rw [hr0]; simp
-        simp only [hYne, if_false]
+        have hhne : renderSet h ≠ [] := renderSet_ne_nil hs
         have hrec : ∀ a ∈ args, isFunc a = true →
             parseSpec Sy fuel (render a) = sem Sy a ∧ parseSpec Sy fuel (renderT a) = sem Sy a := by
           intro a ha hfa
@@ -646,13 +656,14 @@ theorem parseSpec_func (Sy : Syms) : ∀ (fuel : Nat) (t : RTok), renderOK Sy t 
           omega
         by_cases hnil : args = []
         · subst hnil
-          simp only [renderArgsT, List.append_nil, (pnw_word (renderSet h) [] c0 r0 hr0 hc0 hsp).2]
+          simp only [renderArgsT, List.append_nil] at hYne ⊢
+          rw [parseRest_step Sy _ _ _ _ _ hYne (pnw_word (renderSet h) [] c0 r0 hr0 hc0 hsp).2 hhne]
           rw [List.drop_of_length_le (by omega)]
           rw [show (renderSet h).length = (renderSet h).length - 1 + 1 by rw [hr0]; simp, parseRest_nil]
           simp only [semArgs]
           cases tokOf Sy (parseSpec Sy fuel) (renderSet h) <;> rfl
-        · rw [renderArgsT_eq args hnil, (pnw_word (renderSet h) (wordsT args) c0 r0 hr0 hc0 hsp).1]
-          simp only
+        · rw [renderArgsT_eq args hnil] at hYne ⊢
+          rw [parseRest_step Sy _ _ _ _ _ hYne (pnw_word (renderSet h) (wordsT args) c0 r0 hr0 hc0 hsp).1 hhne]
           rw [show (renderSet h).length + 1 = (renderSet h ++ [' ']).length by simp,
             show renderSet h ++ ' ' :: wordsT args = (renderSet h ++ [' ']) ++ wordsT args by simp, List.drop_left]
           rw [parseRest_args Sy _ args hnil hoks hrec _ (by
@@ -687,10 +698,10 @@ theorem parseSpec_func (Sy : Syms) : ∀ (fuel : Nat) (t : RTok), renderOK Sy t 
             | some as => simp [assemble]
       constructor
       · rw [parseSpec]
-        simp only [isParen_eq, e1, key]
+        simp only [e1, key]
         exact fin
       · rw [parseSpec]
-        simp only [isParen_eq, e2, key]
+        simp only [e2, key]
         exact fin
     | _ => simp [isFunc] at hf
 
@@ -728,20 +739,22 @@ theorem parse_render_word (Sy : Syms) (t : RTok) (hok : renderOK Sy t = true) (h
   have hc2 : c ≠ ')' := by
     cases t <;> simp [isRuleWord] at hw <;> simp [render] at hr <;> (rw [← hr.1]; decide)
   have hne := renderT_ne_nil Sy t hok
-  have hstrip : stripChars isParen (removeChar '\n' (render t)) = renderT t := by
+  have hc3 : c ≠ ' ' := by
+    cases t <;> simp [isRuleWord] at hw <;> simp [render] at hr <;> (rw [← hr.1]; decide)
+  have hstrip : stripChars (stripP Sy.fixF5) (removeChar '\n' (render t)) = renderT t := by
     rw [removeChar_id _ _ sh.nonl, hk]
-    have := stripChars_mid isParen [] (renderT t) (List.replicate k ')') (by simp)
-      (fun x hx => by rw [List.mem_replicate] at hx; rw [hx.2]; decide) hne
-      (fun x hx => by rw [hr'] at hx; simp at hx; subst hx; simp [isParen, hc, hc2])
+    have := stripChars_mid (stripP Sy.fixF5) [] (renderT t) (List.replicate k ')') (by simp)
+      (fun x hx => by rw [List.mem_replicate] at hx; rw [hx.2]; simp [stripP]) hne
+      (fun x hx => by rw [hr'] at hx; simp at hx; subst hx; simp [stripP, hc, hc2, hc3])
       (fun x hx => by
         obtain ⟨d, hd, hn⟩ := sh.lastT
-        rw [hd] at hx; simp at hx; subst hx; simp [isParen, hn.1, hn.2])
+        rw [hd] at hx; simp at hx; subst hx; simp [stripP, hn.1.1, hn.1.2, hn.2])
     simpa using this
   unfold parse
   rw [parseSpec]
-  simp only [isParen_eq, hstrip]
-  rw [parseWords_eq, List.drop_zero, parseRest]
-  simp only [hne, if_false, (pnw_tok Sy t hok).2, (tokOf_atom Sy _ t hok hf).2]
+  simp only [hstrip]
+  rw [parseWords_eq, List.drop_zero, parseRest_step Sy _ _ _ _ _ hne (pnw_tok Sy t hok).2 hne]
+  simp only [(tokOf_atom Sy _ t hok hf).2]
   rw [List.drop_of_length_le (by omega)]
   rw [show (renderT t).length = (renderT t).length - 1 + 1 by
     cases hh : renderT t with
